@@ -90,6 +90,109 @@ func (m *cafsMemWriterAt) Write(p []byte) (int, error) { // never used by cafs w
 // cafsSwitchStore forwards to a store that can be swapped (damage appearing under a live reader).
 type cafsSwitchStore struct{ *memstore.Store }
 
+// cafsModeStore hands out blob readers with a chosen io.Reader behaviour (Model/CafsSeq.lean RMode):
+// when io.EOF is reported and whether reads come back short.
+type cafsModeStore struct {
+	*memstore.Store
+	eofOnEmpty, eager bool
+	cap               int
+}
+
+type cafsModeReader struct {
+	data              []byte
+	pos               int
+	eofOnEmpty, eager bool
+	cap               int
+}
+
+func (m *cafsModeReader) Close() error { return nil }
+func (m *cafsModeReader) Read(p []byte) (int, error) {
+	avail := len(m.data) - m.pos
+	if avail == 0 {
+		if len(p) != 0 || m.eofOnEmpty {
+			return 0, io.EOF
+		}
+		return 0, nil
+	}
+	n := len(p)
+	if avail < n {
+		n = avail
+	}
+	if m.cap > 0 && m.cap < n {
+		n = m.cap
+	}
+	copy(p, m.data[m.pos:m.pos+n])
+	m.pos += n
+	if m.eager && n == avail {
+		return n, io.EOF
+	}
+	return n, nil
+}
+
+func (s *cafsModeStore) Get(ctx context.Context, key string) (io.ReadCloser, error) {
+	rc, err := s.Store.Get(ctx, key)
+	if err != nil {
+		return nil, err
+	}
+	defer rc.Close()
+	data, err := io.ReadAll(rc)
+	if err != nil {
+		return nil, err
+	}
+	return &cafsModeReader{data: data, eofOnEmpty: s.eofOnEmpty, eager: s.eager, cap: s.cap}, nil
+}
+
+// cafsReadSeq: a read loop over the sequential Read with cyclic buffer sizes through a blob
+// reader of the given behaviour; the result names every call's byte count (the first 60) and how
+// the loop ended, so that the Read state machine of the model is compared call by call.
+func cafsReadSeq(st *memstore.Store, leaf int, key cafs.Key, r *tr.Rng, bufs []int) (string, string) {
+	ms := &cafsModeStore{Store: st, eofOnEmpty: r.Intn(2) == 0, eager: r.Intn(3) == 0}
+	if r.Intn(3) == 0 {
+		ms.cap = r.Pick(1, 7, leaf-1, leaf)
+	}
+	b2i := func(b bool) int {
+		if b {
+			return 1
+		}
+		return 0
+	}
+	mode := fmt.Sprintf("%d%d-%d", b2i(ms.eofOnEmpty), b2i(ms.eager), ms.cap)
+	var out []byte
+	var calls []string
+	end := "eof"
+	err := corekit.Recover(func() error {
+		fs, e := cafs.New(cafs.LeafSize(uint32(leaf)), cafs.Backend(ms), cafs.Logger(corekit.Nop), cafs.Prefetch(0), cafs.CacheSize(3*leaf))
+		if e != nil {
+			return e
+		}
+		rd, e := fs.Get(context.Background(), key)
+		if e != nil {
+			return e
+		}
+		defer rd.Close()
+		for i := 0; i < 1<<22; i++ {
+			b := make([]byte, bufs[i%len(bufs)])
+			n, e := rd.Read(b)
+			out = append(out, b[:n]...)
+			if len(calls) < 60 {
+				calls = append(calls, fmt.Sprint(n))
+			}
+			if e == io.EOF {
+				return nil
+			}
+			if e != nil {
+				return e
+			}
+		}
+		return fmt.Errorf("stuck")
+	})
+	if err != nil {
+		end = "err" // every failure is one class: the model's RErr kinds are not distinguished by datamon's callers
+		return mode, fmt.Sprintf("%s calls=%s", end, strings.Join(calls, ","))
+	}
+	return mode, fmt.Sprintf("ok %s calls=%s", cafsH256(out), strings.Join(calls, ","))
+}
+
 type cafsPlainWriter struct{ b bytes.Buffer }
 
 func (w *cafsPlainWriter) Write(p []byte) (int, error) { return w.b.Write(p) }
@@ -410,6 +513,10 @@ func c01(c *ctx) error {
 				}
 				res, calls := cafsReadAll(fs, ob.key, bufs)
 				c.w.Op(fmt.Sprintf("read obj=%d style=readall bufs=%s", o, cafsJoin(bufs)), res+" ## calls="+calls)
+				// the same buffers through the Read state machine, call by call, for a chosen blob-reader behaviour
+				mode, sres := cafsReadSeq(st, leaf, ob.key, r, bufs)
+				c.w.Op(fmt.Sprintf("read obj=%d style=readseq mode=%s bufs=%s", o, mode, cafsJoin(bufs)), sres)
+				c.w.Count("readseq mode=" + mode[:2])
 			}
 			// random access
 			for k := 0; k < 6; k++ {
@@ -616,6 +723,25 @@ func c03(c *ctx) error {
 			}
 			res, _ := cafsReadAll(rfs, objs[0].key, []int{1 + r.Intn(2*leaf), 1 + r.Intn(2*leaf)})
 			c.w.Op(fmt.Sprintf("obs obj=0 style=readall got=%s", got(res)), "sound")
+			// the Read state machine on the damaged store, call by call (fresh instance: the model
+			// reads the keys from the damaged root blob as well), and judged like the other styles
+			{
+				bufs := []int{1 + r.Intn(2*leaf), 1 + r.Intn(2*leaf)}
+				if r.Intn(3) == 0 {
+					bufs = []int{r.Pick(1, 7, leaf-1, leaf, leaf+1)}
+				}
+				if ln > 20000 && bufs[0] < 64 {
+					bufs[0] = 64
+				}
+				mode, sres := cafsReadSeq(work, leaf, objs[0].key, r, bufs)
+				c.w.Op(fmt.Sprintf("read obj=0 style=readseq mode=%s bufs=%s", mode, cafsJoin(bufs)), sres)
+				g := "err"
+				if strings.HasPrefix(sres, "ok ") {
+					g = strings.Fields(sres)[1]
+				}
+				c.w.Op(fmt.Sprintf("obs obj=0 style=readseq got=%s", g), "sound")
+				c.w.Count("readseq")
+			}
 			for k := 0; k < 3; k++ {
 				off, cnt := r.Intn(ln+1), 1+r.Intn(2*leaf)
 				if k == 0 {
@@ -718,7 +844,9 @@ func c03Download(c *ctx, r *tr.Rng, i int) {
 					// their own: wait for them, then for two identical snapshots in a row
 					pending := false
 					for n, b := range got {
-						if !damaged[n] && len(b) != len(files[n]) {
+						// (a file pre-sized by a WriteAt at its last leaf has its final length before its
+						// other leaves land: compare the bytes, not the length)
+						if !damaged[n] && string(b) != string(files[n]) {
 							pending = true
 						}
 					}
